@@ -326,7 +326,80 @@ pub fn part_shlib(tier: Tier) -> Part {
             part.violate("C18:shlib:program-did-not-finish-natively", format!("[{}] stdout {stdout:?}, native {native:?}", h.name), replay.clone());
         }
     }
-    part.bounds = json!({"histories": hs.len(), "calls": 4, "libraries": ["startup dependency", "dlopen, dlclose, dlopen again"]});
+    // a breakpoint requested BY ADDRESS before the library is loaded (the address the first load is
+    // known to use: address-space randomisation is off under the debugger); the library comes back
+    // at another address after the reload, so exactly the first call stops
+    {
+        let probe_cmds = vec![bp_fn("plug_inner"), json!({"op": "start", "bt": true})];
+        let probe = crate::mt::session_init(json!({"exe": host, "args": [dir]}), |obs| probe_cmds.get(obs.len()).cloned(), Duration::from_secs(60), probe_cmds.len());
+        let addr = probe.obs.get(1).filter(|o| o["res"]["kind"] == "breakpoint").and_then(|o| o["res"]["pc"].as_u64());
+        match addr {
+            None => part.violate("MACHINERY:shlib-no-probe-address", format!("{:?}", probe.obs.get(1).map(|o| o["res"].clone())), json!(null)),
+            Some(addr) => {
+                for variant in ["plugin-by-address-before-load", "plugin-by-address-deferred-before-start"] {
+                // requested at a stop in main, before the plugin is loaded (the address belongs to no
+                // object yet: the request is refused and deferred, as the console does); second
+                // variant: deferred through the API before the program is started
+                let script = if variant == "plugin-by-address-deferred-before-start" {
+                    vec![
+                        json!({"op": "defer_addr", "addr": addr}),
+                        json!({"op": "start", "bt": true}),
+                        json!({"op": "values", "names": [], "derefs": []}),
+                        json!({"op": "continue", "bt": true}),
+                        json!({"op": "continue", "bt": true}),
+                    ]
+                } else {
+                vec![
+                    bp_line_main.clone(),
+                    json!({"op": "start", "bt": true}),
+                    json!({"op": "remove_line", "file": "host.rs", "line": before_load_line}),
+                    json!({"op": "break_addr_deferred", "addr": addr}),
+                    json!({"op": "continue", "bt": true}),
+                    json!({"op": "values", "names": [], "derefs": []}),
+                    json!({"op": "continue", "bt": true}),
+                    json!({"op": "continue", "bt": true}),
+                ]
+                };
+                let run = crate::mt::session_init(
+                    json!({"exe": host, "args": [dir]}),
+                    |obs| {
+                        if obs.last().map(|o| o["res"]["kind"] == "exit").unwrap_or(false) {
+                            return None;
+                        }
+                        script.get(obs.len()).cloned()
+                    },
+                    Duration::from_secs(60),
+                    script.len(),
+                );
+                let replay = json!({"engine": "mt", "exe": host, "init": {"args": [dir]}, "commands": script});
+                part.evaluations += 1;
+                part.traces_validated += 1;
+                part.states += run.obs.len() as u64;
+                let stops: Vec<(u64, Vec<(String, String)>)> = run
+                    .obs
+                    .iter()
+                    .enumerate()
+                    .filter(|(_, o)| matches!(o["cmd"]["op"].as_str(), Some("continue") | Some("start")) && o["res"]["kind"] == "breakpoint" && o["res"]["pc"].as_u64().map(|p| p > 0x7000_0000_0000).unwrap_or(false))
+                    .map(|(i, o)| {
+                        let args = run.obs.get(i + 1).and_then(|v| v["res"]["frames"][0]["args"]["Ok"].as_array().cloned()).unwrap_or_default().iter().map(|a| (a["name"].as_str().unwrap_or("").to_string(), a["v"]["v"].as_str().unwrap_or("").to_string())).collect();
+                        (o["res"]["pc"].as_u64().unwrap_or(0), args)
+                    })
+                    .collect();
+                part.sample(json!({"history": variant, "address": format!("{addr:#x}"), "deferred": run.obs.get(3).map(|o| o["res"]["deferred"].clone()), "stops": stops.iter().map(|s| format!("{:#x}", s.0)).collect::<Vec<_>>()}));
+                if run.hang_at.is_some() || run.crashed.is_some() {
+                    part.violate("C18:shlib:session-broke", format!("[{variant}] hang {:?} crash {:?}", run.hang_at, run.crashed), replay);
+                } else if stops.len() != 1 || stops[0].0 != addr {
+                    part.violate("C18:shlib:deferred-address-breakpoint-stops-differ", format!("[{variant}] breakpoint deferred at {addr:#x} (plug_inner in the first load of the plugin): stops at {:x?}, expected exactly one, at that address", stops.iter().map(|s| s.0).collect::<Vec<_>>()), replay);
+                } else if stops[0].1 != vec![("a".to_string(), "10".to_string()), ("b".to_string(), "20".to_string())] && !stops[0].1.is_empty() {
+                    part.violate("C18:shlib:arguments-wrong-in-library-frame", format!("[{variant}] arguments {:?}", stops[0].1), replay);
+                } else {
+                    part.distinct_nontrivial += 1;
+                }
+                }
+            }
+        }
+    }
+    part.bounds = json!({"histories": hs.len() + 2, "calls": 5, "libraries": ["startup dependency", "dlopen, dlclose, second plugin, dlopen again at another address"]});
     part
 }
 
